@@ -36,8 +36,12 @@ func fileExists(name string) (bool, error) {
 	return true, nil
 }
 
+// createSegment creates the segment file under a temporary name and
+// renames it into place once it has its full size, so that a crash
+// never leaves a partially initialized segment file behind.
 func createSegment(name string, opt Options) (err error) {
-	f, err := os.OpenFile(name, os.O_RDWR|os.O_CREATE, opt.FileMode)
+	tmp := name + ".tmp"
+	f, err := os.OpenFile(tmp, os.O_RDWR|os.O_CREATE|os.O_TRUNC, opt.FileMode)
 	if err != nil {
 		return
 	}
@@ -45,10 +49,11 @@ func createSegment(name string, opt Options) (err error) {
 		if e := f.Close(); err == nil {
 			err = e
 		}
+		if err == nil {
+			err = os.Rename(tmp, name)
+		}
 		if err != nil {
-			if e := os.Remove(name); err == nil {
-				err = e
-			}
+			_ = os.Remove(tmp)
 		}
 	}()
 	verifPoint("create:created", name)
